@@ -440,8 +440,46 @@ def sessions(ck, n):
             ck.oracle_fail('metadata_record_present', inp, {'comments': df['comments'][:3]})
 
 
+def directed_search(ck):
+    """the translation tie (RB.Proofs.GenC02) no longer checks: find Python values on which the definitions
+    generated from the current source and the settings model differ, then put exactly those to the real
+    functions and to the property (highest-priority marked value, else highest-priority defined value)"""
+    import rebench.model as rm
+    cands = []
+    if (ck.gen_broken or '').startswith('proof-broken'):
+        vals = [None, 0, 1, 3, 12, '0', '3', '12', '0!', '3!', '12!', '7!']
+        pairs = [(v, d) for v in vals for d in vals]
+        try:
+            answers = ck.model([{'op': 'c02.gen_diff', 'val': v, 'default': d} for (v, d) in pairs],
+                               driver='drivers/C02gen.lean')
+            cands = [pr for pr, a in zip(pairs, answers) if not a.get('same', True)]
+            ck.notes.append('directed search: generated vs model differ on %d of %d (value, default) pairs'
+                            % (len(cands), len(pairs)))
+        except lib.InfraError as e:
+            ck.notes.append('directed search: generated definitions do not run (%s)' % str(e)[:200])
+    ck.count('directed-search-candidates', len(cands))
+    for (v, d) in cands[:200]:
+        inp = {'levels(low->high)': {'lower level': d, 'higher level': v}, 'directed': True}
+        ck.case(nontrivial_key=('directed', str(v), str(d)), sample=None)
+        # the property on two levels
+        marked = [x for x in (d, v) if isinstance(x, str) and x.endswith('!')]
+        defined = [x for x in (d, v) if x is not None]
+        want = marked[-1] if marked else (defined[-1] if defined else None)
+        want_n = None if want is None else int(str(want).rstrip('!'))
+        try:
+            got = rm.remove_important(rm.prefer_important(v, d))
+        except Exception as e:  # noqa
+            got = 'raised %s' % type(e).__name__
+        if got != want_n:
+            ck.oracle_fail('effective_value_two_levels', inp, {'reported': got, 'expected': want_n},
+                           {'kind': 'prefer_important'})
+    return bool(cands)
+
+
 def run(ck):
     quick = ck.tier == 'quick'
+    if ck.gen_broken:
+        directed_search(ck)
     ck.rule = ('complete table {absent,plain,marked}^7 for invocations/iterations/warmup (three tables packed by '
                'bijective re-indexing), each assignment compiled without and with a CLI override (-in/-it/-q/'
                '--setup-only); presence patterns over the 7 levels for every other detail and variable list; random '
